@@ -14,6 +14,8 @@ def observe(spec, inputs):
         if spec.get("warm"):
             C.warm(m1)
         neg = n.pg.Not(m1) if spec["via"] == "Not" else m1.negate()
+        if spec.get("chain", 1) == 2:
+            neg = n.pg.Not(neg) if spec["via"] == "Not" else neg.negate()
         out["negsnap"] = C.snapshot(n, neg)
         out["negid"] = neg.id
         v = neg.evaluate(dict(inputs["vals"]))
@@ -41,8 +43,9 @@ def judge(spec, inputs, out, ob):
     snap = _tup(out["snap"])
     t = C.snap_eval(snap, inputs["vals"])
     bad = []
-    if out["neg"] != [1 - t, 1 - t]:
-        bad.append("original evaluates to %d but negation evaluates to %s" % (t, out["neg"]))
+    want = 1 - t if spec.get("chain", 1) == 1 else t
+    if out["neg"] != [want, want]:
+        bad.append("original evaluates to %d but its %snegation evaluates to %s" % (t, "double " if spec.get("chain", 1) == 2 else "", out["neg"]))
     if not out["gen"] and out["negid"] != out["mid"]:
         bad.append("explicit id %r not kept (got %r)" % (out["mid"], out["negid"]))
     leaves = plspec.leaves(spec["model"])
